@@ -93,6 +93,29 @@ def yields(R):
              'closing the generator while it is suspended at this yield leaves the TCP socket open (%s)' % detail,
              func=q, node=y.ast)
     R.extra['c13'] = {'run_yields_with_open_socket': len(ys), 'feed_suspension_pairs_checked': pairs}
+    # on the way from a GeneratorExit handler to _close_socket() nothing is evaluated that can fail (the exception model has
+    # no TypeError for arithmetic on fields that are still None before Ready): only logging of plain names / attributes
+    nh = 0
+    for h in g.live_nodes():
+        if h.kind != 'handler' or 'GeneratorExit' not in U(h.ast.type if h.ast.type is not None else ast.Name(id='', ctx=ast.Load())):
+            continue
+        nh += 1
+        region = g.reachable(normal_succs(h), avoid=set(cs), skip_edge=lambda a, b, l: l.startswith('exc:'))
+        risky = []
+        for m in region:
+            if m in cs or m.kind not in ('stmt', 'test'):
+                continue
+            plain = isinstance(m.ast, ast.Expr) and isinstance(m.ast.value, ast.Call) and U(m.ast.value.func).startswith('log.') \
+                and all(isinstance(a_, (ast.Constant, ast.Name, ast.Attribute)) for a_ in m.ast.value.args) \
+                and not m.ast.value.keywords
+            if isinstance(m.ast, (ast.Raise, ast.Pass)) or plain:
+                continue
+            risky.append(m.text()[:70])
+        R.ob('C13.yields', 'nothing that can fail runs before _close_socket() in the GeneratorExit handler', not risky,
+             'the GeneratorExit handler evaluates %s before closing the socket: if that raises (a timer field is None before '
+             'Ready ...) the socket is never closed' % risky[:2], func=q, node=h.ast,
+             construct='GeneratorExit handler prologue')
+    need(nh >= 2, 'run(): GeneratorExit handlers not found')
 
 
 def _feed_suspensions(R):
